@@ -81,11 +81,11 @@ def _cutOffEvents(events: list, t_events: list, start_time: float, restart_time:
         return []
     cut_off = []
     for event, t_event in zip(events, t_events):
-        if t_event.size > 0:
-            continue
-        if isinstance(event, ScheduledImpulse):
+        if isinstance(event, ScheduledImpulse) and t_event.size == 0:
             event_time = event.time
         elif isinstance(event, ScheduledFiniteThrust) and event._thrusting:  # noqa: SLF001
+            # Still on after the reported events were applied: this includes a thrust that has just been started
+            # and whose end is not after its start
             event_time = event.end_time
         else:
             continue
